@@ -424,6 +424,18 @@ class Anchors:
         return self.need(out, "feeder error hook")
 
     @lazy
+    def max_workers_attr(self):
+        """The executor field that holds the pool size: the attribute the constructor fills from its public `max_workers` argument."""
+        init = self.init
+        selfn = init.params[0]
+        out = set()
+        for n in func_nodes(init):
+            if isinstance(n, ast.Assign) and isinstance(n.targets[0], ast.Attribute) and isinstance(n.targets[0].value, ast.Name) and n.targets[0].value.id == selfn \
+                    and isinstance(n.value, ast.Name) and n.value.id == "max_workers":
+                out.add(n.targets[0].attr)
+        return self.unique(out, "pool-size field of the executor")
+
+    @lazy
     def roles(self):
         """role -> {qualname: predecessor}."""
         e = self.e
